@@ -9,6 +9,7 @@ double denotes its exact binary value.
 from __future__ import annotations
 
 import math
+import time
 import sys
 from fractions import Fraction as Fr
 
@@ -23,6 +24,9 @@ try:
 except Exception:  # pragma: no cover
     mpmath = None
     _iv = None
+
+
+DEADLINE = None  # wall-clock limit of the path exploration of the running job (set by harness.run_job)
 
 
 class Unsupported(Exception):
@@ -133,6 +137,7 @@ class Ctx:
         self.simplify_stores = True  # masked scalar stores are simplified against the path condition
         self.opaque_math = False  # structural harnesses: sqrt/exp/log/trig results are uninterpreted (sound abstraction)
         self.shadow_checked = 0
+        self.tangent = False  # quantitative (tangent-line / Bernoulli) axiom instances for exp, log, pow
 
     # -- fresh symbols ------------------------------------------------------------
     def fresh(self, prefix, sort="R", val=None):
@@ -214,6 +219,8 @@ class Ctx:
             v = d.value
         else:
             v, forced = True, False
+            if DEADLINE is not None and time.time() > DEADLINE:
+                raise HarnessError("path cap hit: exploration time budget exhausted")
             if self.prune:
                 from .solve import quick_feasible
 
